@@ -33,7 +33,7 @@ CHUNK = 256
 
 def _o_filter(case):
     # fault-free worlds on <=3 layers and the plain n=4 naming family, no options
-    return (case[0] not in ('cli', 'big') and not case[7] and case[8] in ('none', 'rep', 'j2')
+    return (case[0] not in ('cli', 'big', 'feat') and not case[7] and case[8] in ('none', 'rep', 'j2')
             and (case[0] <= 3 or (isinstance(case[3], list) and case[3] == sorted(case[3]))))
 
 
@@ -42,6 +42,7 @@ def _o_filter(case):
 ENV_PASSES = [{'name': 'python -O', 'argv': ['-O'], 'env': {}, 'filter': _o_filter}]
 
 OPTS = {
+    'c': ['-c'], 'c+v3': ['-c', '-vvv'], 'v4': ['-vvvv'], 'p': ['-p'], 'c+p': ['-c', '-p', '-v'], 'Werr': [],
     'none': [],
     'x': ['-x'],
     'rep': ['--repeat', '2'],
@@ -117,6 +118,14 @@ def cases(tier, seed):
                     for nie in range(n):
                         yield [n, g, kind, list(perm), None, list(range(n)), False,
                                {nie: {'tearDown': 'NIE'}}, 'none']
+    # durations of a minute and more, the colour formatter, high verbosity, the
+    # progress display; hooks that return a value while warnings are errors
+    for n in (2, 3):
+        for g in worlds.dags(n):
+            for kind in ['i'] + (['c'] if worlds.c3_ok(g) else []):
+                for ok in ('c', 'c+v3', 'v4', 'p', 'c+p', 'Werr'):
+                    for feat in ('slow', 'ret'):
+                        yield ['feat', n, g, kind, ok, feat]
     # a world that is not small: 12 layers (a chain of 3 + 9 independent), 40
     # tests each, with one layer at a time that cannot be torn down
     for nie in (None, 0, 2, 6, 11):
@@ -253,6 +262,32 @@ def run_case(case):
         return {'evals': 1, 'nontrivial': True, 'nogate': True,
                 'violations': [{'clause': c, 'sig': s, 'detail': d} for c, s, d in vs],
                 'outcome': 'cli', 'counters': {'real_process_runs': 1}}
+    if case[0] == 'feat':
+        _, n, g, kind, ok, feat = case
+        names = worlds.names_for(n, 'fwd')
+        layers = worlds.layer_specs(g, kind, names, [list(worlds.HOOKS_SD)] * n)
+        for i, L in enumerate(layers):
+            if feat == 'slow':
+                L['slow'] = [61, 3700, 0.5][i % 3]     # > 1 minute, > 1 hour
+            else:
+                L['ret'] = True
+        tests = [{'n': 't' + nm, 'l': nm, 's': 'pass', 'slowt': 75 if feat == 'slow' else None} for nm in names]
+        tests.append({'n': 'tf', 'l': names[-1], 's': 'fail'})
+        spec = {'layers': layers, 'tests': tests}
+        res = runrt.run_world(spec, list(OPTS[ok]), warnings='error' if ok == 'Werr' else None)
+        sv = monitors.SpecView(spec)
+        states, transitions = set(), set()
+        viol = []
+        sg = {'opt': ok, 'kind': feat}
+        if res.escaped:
+            viol.append({'clause': 'run_aborted', 'sig': dict(sg, exc=res.escaped), 'detail': res.escaped_tb})
+        for clause, detail in monitors.check_layer_stack(sv, res, states, transitions):
+            viol.append({'clause': clause, 'sig': sg, 'detail': detail[:2000] + '\nargv=%s spec=%s' % (OPTS[ok], spec)})
+        ex = collections.Counter(tid for vpid, tid in monitors.executed(res))
+        if set(ex.values()) != {1} or len(ex) != len(tests):
+            viol.append({'clause': 'executed_count', 'sig': sg, 'detail': '%s\nargv=%s spec=%s' % (dict(ex), OPTS[ok], spec)})
+        return {'nontrivial': True, 'violations': viol, 'states': states, 'transitions': transitions,
+                'outcome': ('feat', feat, bool(res.escaped))}
     if case[0] == 'big':
         from vt import ow
         spec = ow.big_spec(nie=case[1], scripts=['pass', 'pass', 'fail', 'skip_body'])
